@@ -376,24 +376,24 @@ nested mutable access takes its own clone-or-in-place decision.  Its reference c
 *all* blocks are compared with the real `data->ref` after every operation of the
 correspondence run.
 
-Proved below for all histories made of the operations that act on a variable itself
-(`OpSup`): construction from literals, copy construction, `v = w`, `v = <any nested element
-of any variable, including of v itself>` (`get`, any path), swap, clear, the mutable
-accessors, scalar typed assignment, list/array append and prepend of variables or literals —
-the values may be nested to any depth and share blocks in any way.  The ghost map `g` ties
-every block to a value by a local equation; reference count = handles in variables + handles
-stored in payloads + pending handles of the running operation (DeepInv.lean); `release`
-terminates within a fuel above the number of live blocks (DeepRelease.lean).
+Proved below for all histories made of the operations of `OpSup`: construction from literals,
+copy construction, `v = w`, `v = <any nested element of any variable, including of v itself>`
+(`get`, any path), swap, and `mut v path leaf` for *every path* (any depth) with the leaves
+assignment (from a variable or a literal), clear, the four mutable accessors, scalar typed
+assignment, list/array append and prepend of variables or literals.  The values may be nested
+to any depth and share blocks in any way.  The ghost map `g` ties every block to a value by a
+local equation; reference count = handles in variables + handles stored in payloads + pending
+handles of the running operation (DeepInv.lean); `release` terminates within a fuel above the
+number of live blocks (DeepRelease.lean); a nested walk leaves its uniquely owned parent
+block untouched (DeepPriv.lean) and refines the nested value update (DeepWalk.lean).
 
-OPEN: deep_refines  — the same statement without the hypothesis `∀ op ∈ ops, OpSup op`
-  (mutations through nested paths `mut v (st :: p) lf`, typed container assignment /
-  construction from temporaries, `lrem/arem/mput/mrem/sapp`, string typed assignment).
-  What is missing is the bookkeeping that the parent block of a nested walk is untouched by the
-  nested call (the single-level lemmas `dinv_access`, `leaf_step`, `dinv_setPay` are proved);
-  these operations are covered by `refines` on the variable-level model and by the
-  correspondence run (values and reference counts).                                            -/
+OPEN: deep_refines  — the same statement without the hypothesis `∀ op ∈ ops, OpSup op`,
+  i.e. additionally for the leaves `lrem/arem/mput/mrem/sapp`, the typed assignment of a
+  String and the typed assignment / construction from a temporary List/Array/HashMap.
+  These operations are covered by `refines` on the variable-level model and by the
+  correspondence run (values and reference counts of every block).                              -/
 
-/-- For every history of variable-level operations the deep model never faults, its abstract
+/-- For every history of the operations of `OpSup` the deep model never faults, its abstract
     state is the specification store, and what it reads back from the heap (`readCell`, any fuel
     above the size of the value) is the specification's value. -/
 theorem deep_refines_partial (ds : DblSem) (ops : List Op) (hsup : ∀ op ∈ ops, Deep.OpSup op) :
@@ -460,6 +460,8 @@ def sampleDeepOps : List Op :=
     .mut 2 [] (.aapp (.var 1)),
     .copy 3 1,
     .mut 3 [] (.lpre (.lit (.int 7))),
+    .mut 2 [.ar 0, .li 0] (.touch 8),          -- nested accessor: clone of the shared list, then of the string element
+    .mut 2 [.ar 0] (.lapp (.var 3)),
     .mut 1 [] .clear,
     .get 2 2 [.ar 0, .li 1],
     .swap 0 3 ]
@@ -467,7 +469,8 @@ def sampleDeepOps : List Op :=
 example : ∀ op ∈ sampleDeepOps, Deep.OpSup op := by
   intro op hop
   simp [sampleDeepOps] at hop
-  rcases hop with rfl | rfl | rfl | rfl | rfl | rfl | rfl | rfl | rfl <;> simp [Deep.OpSup, Deep.LeafSupS, Deep.SrcLit, Deep.LitOk]
+  rcases hop with rfl | rfl | rfl | rfl | rfl | rfl | rfl | rfl | rfl | rfl | rfl <;>
+    simp [Deep.OpSup, Deep.LeafSupS, Deep.SrcLit, Deep.LitOk]
 
 example : specRun ieee Store.init sampleDeepOps 0 = .list [.int 7, .str [97], .str [97]] ∧
     specRun ieee Store.init sampleDeepOps 2 = .str [97] := by
